@@ -90,6 +90,7 @@ let run_cache () =
       | "d" -> let k = next_int () in
         let (ok, c') = cdel keqb (gn ()) k !c in c := c'; if ok then "-" else "KeyError"
       | "c" -> c := cclear !c; "-"
+      | "n" -> "-"
       | "v" -> incr g; "-"
       | "m" -> let m = read_optnat () in c := csetmax m !c; "-"
       | t -> failwith ("bad cache op " ^ t) in
